@@ -51,7 +51,7 @@ def o191(ctx):
     pn = [a_.arg for a_ in fn.args.posonlyargs + fn.args.args]
     if len(pn) < 6 or len(pn) - len(fn.args.defaults) > 6:
         raise Unsupported("get_nn_dist: six required positional parameters expected", fn)
-    am = assume_map({f"{pn[3]} > 0": True})
+    am = assume_map({f"{pn[3]} > 0": True, f"{pn[3]} >= 0": True})
 
     def assume(fn_, node_, av_, module_=None):
         # `<array>.size == 0` (no candidate left) is the early-return path; the rule is about the pair returned when there is one
@@ -144,6 +144,31 @@ def o191(ctx):
     if len(actm) != 1 or actm[0].op != "eq" or actm[0].args[1] != sym("test_value") or not looked_up:
         ctx.finding(q, "activity filter", "candidates must be restricted to points whose activity flag equals the requested value "
                     "(flags looked up at the candidate indices)", fn, m)
+    # the lower bound is open for EVERY min_distance >= 0: with min_distance = 0 a site at distance exactly 0 (an exit site lying on another
+    # particle's entry site: integer coordinates) is not in (0, max] either -- the filter may not be switched off for min_distance == 0
+    am0 = assume_map({f"{pn[3]} > 0": False, f"{pn[3]} >= 0": True})
+
+    def assume0(fn_, node_, av_, module_=None):
+        pol = empty_test_polarity(node_)
+        if pol is not None:
+            return not pol
+        n_, neg_ = node_, False
+        while isinstance(n_, ast.UnaryOp) and isinstance(n_.op, ast.Not):
+            n_, neg_ = n_.operand, not neg_
+        if isinstance(n_, ast.Call) and isinstance(n_.func, ast.Attribute) and n_.func.attr == "any" and not n_.args:
+            return not neg_
+        return am0(fn_, node_, av_, module_)
+
+    it0 = Interp(ctx.prog, assume=assume0)
+    r0 = it0.run(q, [tree, Unk(sym("qp")), P("dist_max"), P("dist_min"), act, P("test_value")], {})
+    ctx.count(1, {"min_distance == 0 path consulted": bool(getattr(am0, "used", True))})
+    if getattr(am0, "used", None) and isinstance(r0.ret, Seq) and len(r0.ret.items) == 2:
+        t0 = to_term(r0.ret.items[0])
+        strict0 = tm.contains(t0, lambda n: n.op in ("lt", "gt") and (tm.has_sym(n, "dist_min") or any(tm.cval(a_) == 0 for a_ in n.args)) and tm.has_call(n, ".query_radius"))
+        if not strict0:
+            ctx.finding(q, "minimum-distance filter for min_distance = 0", "the strict lower bound is applied only when min_distance > 0: with min_distance = 0 a neighbour at "
+                        "distance exactly 0 (an exit site that coincides with another particle's entry site) is linked, and 0 is not in (0, max_distance]", fn, m,
+                        returned=tm.show(t0)[:160])
     if len(dmin) != 1 or dmin[0].op != "lt" or dmin[0].args[0] != sym("dist_min") or not tm.has_call(dmin[0].args[1], ".query_radius"):
         ctx.finding(q, "minimum-distance filter", "admissible neighbours must be strictly farther than min_distance (distance > "
                     "min_distance: the interval is (min_distance, max_distance])", fn, m, extracted=tm.show(dmin[0])[:160] if dmin else None)
@@ -362,6 +387,28 @@ def o193(ctx):
     idx_name = src(ap.value).split(".iloc[[")[1].split("]]")[0]
     cleared = [src(s) for s in blk if isinstance(s, ast.Assign) and src(s).endswith("= False") and f"[{idx_name}]" in src(s)]
     ctx.count(1, {"append": src(ap)[:80], "flags cleared in the same block": cleared})
+    # the flags may be flipped through a helper that stores into both arrays handed to it: followed when the helper's body is `p[i] = s` for each of the
+    # two parameters the flag arrays are bound to, with the state parameter given as False here
+    if len(cleared) != 2:
+        from sa import dataflow as _df
+        from sa.plumbing import bind_call as _bind
+        for s_ in blk:
+            c_ = s_.value if isinstance(s_, ast.Expr) and isinstance(s_.value, ast.Call) else None
+            d_ = ctx.prog.resolve(m, c_.func) if c_ is not None else None
+            t_ = ctx.prog.repo_qual(d_) if d_ else None
+            if t_ is None:
+                continue
+            _, hf = ctx.prog.func(t_)
+            bound, _, _ = _bind(c_, hf, False)
+            stores = {}
+            for a_ in ast.walk(hf):
+                if isinstance(a_, ast.Assign) and len(a_.targets) == 1 and isinstance(a_.targets[0], ast.Subscript) and isinstance(a_.targets[0].value, ast.Name) \
+                        and isinstance(a_.targets[0].slice, ast.Name) and isinstance(a_.value, ast.Name):
+                    stores[a_.targets[0].value.id] = (a_.targets[0].slice.id, a_.value.id)
+            for p_, (ip_, sp_) in stores.items():
+                arg, ia, sa_ = bound.get(p_), bound.get(ip_), bound.get(sp_)
+                if isinstance(arg, ast.Name) and arg.id in flags and ia is not None and src(ia) == idx_name and isinstance(sa_, ast.Constant) and sa_.value is False:
+                    cleared.append(f"{arg.id}[{idx_name}] = False")
     if len(cleared) != 2 or not all(any(c.startswith(f"{fl_}[") for c in cleared) for fl_ in flags):
         ctx.finding(q, ap, "the block that appends a particle to the chain must clear both of its 'remaining' flags (entry and exit): "
                     "otherwise it can be appended again", ap, m)
